@@ -68,6 +68,13 @@ def ttHandle (mbText opsText : String) : String × String :=
               | some d => s!"hit:{boundChar d.bound}:{d.eval}:{d.depth}:{d.age}:{match d.best with | some m => m.text | none => "-"}"
               | none => "miss")
           | none => (t, "bad")
+        | ["f", key, count] =>
+          match bbOfHex' key, count.toNat? with
+          | some k, some n =>
+            let t := (List.range n).foldl (fun (t : TT.Table) i =>
+              t.insert (k + BitVec.ofNat 64 i) { bound := .upper, eval := 7, depth := 2, age := t.generation, best := none }) t
+            (t, "fill")
+          | _, _ => (t, "bad")
         | ["n"] => (t.newGeneration, "gen")
         | ["r"] => (t.reset, "reset")
         | ["z", mb] => (t.resize mb.toNat!, "resize")
